@@ -330,6 +330,7 @@ class Gap:
     label: tuple  # (lca type, left leaf type, right leaf type)
     needs_space: bool  # tokens would merge / change meaning without a separator
     in_interp_of_string: bool
+    in_attrpath: bool = False  # inside an attrpath (nima keeps attrpath text raw)
 
 
 def _lca(a, b):
@@ -350,6 +351,17 @@ def _inside(node, types) -> bool:
     n = node.parent
     while n is not None:
         if n.type in types:
+            return True
+        n = n.parent
+    return False
+
+
+def _inside_attrpath_interp(node) -> bool:
+    """True when node sits inside a `${ }` that is a segment of an attrpath (strictly inside the braces
+    or being one of the braces' inner neighbours)."""
+    n = node
+    while n is not None:
+        if n.type == "interpolation" and n.parent is not None and n.parent.type in ("attrpath", "inherited_attrs"):
             return True
         n = n.parent
     return False
@@ -441,6 +453,9 @@ def code_gaps(tree_or_text):
                     needs,
                     (prev is not None and _string_ancestor_via_interp(prev))
                     or (n is not None and _string_ancestor_via_interp(n)),
+                    (prev is not None and n is not None and _inside(prev, ("attrpath",)) and _inside(n, ("attrpath",)))
+                    or (prev is not None and _inside_attrpath_interp(prev))
+                    or (n is not None and _inside_attrpath_interp(n)),
                 )
             )
             idx += 1
